@@ -1,7 +1,9 @@
 CONSTANTS
   Depth = 2
   AllVias = TRUE
+  LastAllVias = FALSE
   Prune = TRUE
   PruneLast = TRUE
+  Repr = FALSE
 SPECIFICATION Spec
 INVARIANT Emit
